@@ -74,6 +74,10 @@ def work(job):
             return res
         ta = export_machine(base.dctx)
         res["states"] = len(base.dctx.dfa.states)
+        import rtdiff
+        if rtdiff.machine_known_spin("", ta):
+            res["status"] = "excluded:spin-through-outofspace-redirect (the finding recorded under C04)"
+            return res
         for name, args in configs(nmfu, tier):
             o = compile_program(prog["src"], args + prog["args"], codegen=False,
                                 want_pre=(lambda self: export_machine(self)) if name == "O3" else None)
@@ -178,6 +182,9 @@ def main():
                 continue
             if r["status"].startswith("unsupported"):
                 stats["unsupported"] += 1
+                continue
+            if r["status"].startswith("excluded"):
+                stats["excluded_known_spin"] = stats.get("excluded_known_spin", 0) + 1
                 continue
             if r["status"].startswith("tool-error"):
                 ck.notes.append({"tool_error": r["name"], "detail": r["status"]})
